@@ -214,8 +214,14 @@ func strRange(r *object.PanRange, runes []rune) object.PanObject {
 	runeArr := valRange(r, len(runes), func(i int64) object.PanObject {
 		return strIndex(i, runes)
 	})
+	arr, ok := runeArr.(*object.PanArr)
+	if !ok {
+		// error (zero step)
+		return runeArr
+	}
+
 	var out bytes.Buffer
-	for _, elem := range runeArr.(*object.PanArr).Elems {
+	for _, elem := range arr.Elems {
 		out.WriteString(elem.(*object.PanStr).Value)
 	}
 	return object.NewPanStr(out.String())
@@ -244,6 +250,14 @@ func valRange(
 		return object.NewValueErr("cannot use 0 for range step")
 	}
 
+	// NOTE: a step beyond the size selects at most one element.
+	// Clipping it keeps `i += step` below from overflowing
+	if limit := int64(size) + 1; step > limit {
+		step = limit
+	} else if step < -limit {
+		step = -limit
+	}
+
 	start, stop := fixRange(r, int64(size), step)
 
 	hasNext := func(i int64, stop int64) bool {
@@ -266,15 +280,21 @@ func canBeUsedForRange(o object.PanObject) bool {
 }
 
 func fixRange(r *object.PanRange, length int64, step int64) (int64, int64) {
+	// NOTE: bounds are clamped to the ends reachable in the direction of step
+	lower, upper := int64(0), length
+	if step < 0 {
+		lower, upper = -1, length-1
+	}
+
 	fix := func(i int64) int64 {
-		if i < -length {
-			return 0
-		}
-		if i > length {
-			return length
-		}
 		if i < 0 {
+			if i < -length {
+				return lower
+			}
 			return i + length
+		}
+		if i > upper {
+			return upper
 		}
 		return i
 	}
